@@ -200,10 +200,10 @@ Definition any_oracle := {| o_neg_http := Some Html; o_neg_grpc := Some Json; o_
                             o_xml_ne := true; o_plain_ne := true |}.
 
 Theorem F2_refuted :
-  exists c o e, guard_F2 c e = true /\
+  exists c o e, guard_F2o_class c (spec_class e) = true /\ guard_F5_class (spec_class e) = false /\
     http_status (http_handle c o e no_hdrs) <> option_map g_status (grpc_handle c o e).
 Proof.
-  exists f2_cfg, any_oracle, (Sentinel KAuthentication). split; [reflexivity|].
+  exists f2_cfg, any_oracle, (Sentinel KAuthentication). split; [reflexivity|]. split; [reflexivity|].
   vm_compute. discriminate.
 Qed.
 
